@@ -131,12 +131,6 @@ Print Assumptions C05_equiv_PObj.
 
 (* ---- non-vacuity: three events; charged_particles (True), keep_hadrons (False = no effect), multiplicity >= 1.
    Constructor path (event by event, emptied events dropped) and method path agree on the non-empty events *)
-Definition ex5 (i : Z) (ch : Z) : pobs :=
-  mkP i (fun a => match a with A_charge => Ret (fofZ ch) | _ => Ret NaN end).
-Definition ex5_dict : list (string * pyv) :=
-  [("charged_particles", VBool true); ("keep_hadrons", VBool false);
-   ("multiplicity_cut", VTuple [VInt 1; VNone])]%string.
-Definition ex5_evs : list (list pobs) := [[ex5 1 1; ex5 2 0]; [ex5 3 0]; []; [ex5 4 (-1)]].
 Theorem C05_example :
   match file_loader (fun ev => gen_apply_kwargs_Oscar ev (VDict ex5_dict)) ex5_evs,
         method_path gen_arity_Oscar gen_method_Oscar ex5_dict ex5_evs with
